@@ -17,7 +17,8 @@ tvars == <<p, l>>
 Ev == Rec[l]
 Is(op) == l <= Len(Rec) /\ Ev.op = op
 Pt == [kind |-> Ev.kind, dict |-> Ev.dict, mode |-> Ev.mode, mf |-> Ev.mf, lclp |-> Ev.lclp]
-TInit == Init /\ l = 1 /\ TLCSet(1, 1)
+\* the grid variable plays no role here: every event carries its own parameters
+TInit == p = [kind |-> "lzma2", dict |-> 4096, mode |-> "fast", mf |-> "hc4", lclp |-> 0] /\ l = 1 /\ TLCSet(1, 1)
 Near(x, y) == x + Slack >= y /\ y + Slack >= x
 Prop(est, peak) == CheckProperty => (est >= peak /\ est <= C * peak + K)
 
